@@ -13,12 +13,16 @@
                                461-476     code_view / code_action   (_validate_params_with_code, fast path)
                template_tag.py:272-294,
                                334, 347-364 sig_view / sig_action    (_validate_params_with_signature)
-               node.py:81-83               sparams_of    (validation_params[2:])
-               node.py:193                 the final call orig_render(self, context, *args, **kwargs) = py_call
+               node.py:66, 83-85           sparams_of    (inspect.signature(orig_render, follow_wrapped=False) - the signature
+                                                          of the callable the tag calls, also when it is a functools.wraps
+                                                          wrapper - then validation_params[2:])
+               node.py:195                 the final call orig_render(self, context, *args, **kwargs) = py_call
              impl_bind = py_call o validator o wsplit o resolve_params.
    The model is the code of /repo as it is after the fix commits 3c868d2 (no keyword default for positional-only
    parameters), 8478320 (repeated non-identifier key refused in wrapper_render), 81cf028 (name of a
-   positional-only parameter accepted as a key of **kwargs) and 87d326f (non-str key of a spread mapping refused).
+   positional-only parameter accepted as a key of **kwargs), 87d326f (non-str key of a spread mapping refused) and
+   e295553 (validation signature no longer follows __wrapped__).  `sig` is always the signature of the callable that is
+   called: for a decorated render() that is the wrapper (its __code__ on the fast path, its own signature on the fallback).
    Definitions only; proofs in Bind/Proofs.v. *)
 From DJC Require Import Lib.Base.
 
@@ -335,7 +339,7 @@ Section Impl.
     ++ map (fun n => mkSP n KVa None) (opt_list (s_va F))
     ++ map (fun p => mkSP (pname p) KKo (pdef p)) (s_ko F)
     ++ map (fun n => mkSP n KVk None) (opt_list (s_vk F)).
-  (* node.py:81-83  validation_params[2:] *)
+  (* node.py:83-85  validation_params[2:] *)
   Definition sparams_of (F : sig) : list sparam := skipn 2 (full_sparams F).
 
   (* validate_params: fast path when func has __code__, else the signature path *)
